@@ -61,7 +61,7 @@ def run_part(ctx, case, bad, mlr_rows, P, ref_fmtnum):
         nums.append((rng.choice(["%.*f" % (k, rng.uniform(-1000, 1000)), "%.*e" % (k, rng.uniform(-10, 10) * 10.0 ** rng.randint(-30, 30)),
                                  "%d.%s5" % (rng.randint(0, 99), "".join(rng.choice("0123456789") for _ in range(rng.randint(0, 4))))]), False))
     rows = []
-    per = 5 if quick else 12
+    per = 3 if quick else 12
     for txt, isint in nums:
         for _ in range(per):
             f = gen_format(rng, isint)
